@@ -287,12 +287,14 @@ fn bytes_to_hex_string(v: &[u8]) -> String {
 }
 
 fn hex_string_to_be_bytes(s: &str) -> Option<Vec<u8>> {
-    if s.starts_with("0x") && s.len() % 2 == 0 {
-        (2..s.len())
-            .step_by(2)
-            .map(|i| u8::from_str_radix(&s[i..i + 2], 16))
-            .collect::<Result<Vec<_>, _>>()
-            .ok()
+    // Only pairs of ASCII hex digits are valid (slicing a `str` by bytes panics off a char boundary,
+    // and `from_str_radix` would accept a sign)
+    let hex = s.strip_prefix("0x")?;
+    if hex.len() % 2 == 0 && hex.bytes().all(|b| b.is_ascii_hexdigit()) {
+        hex.as_bytes()
+            .chunks_exact(2)
+            .map(|pair| u8::from_str_radix(std::str::from_utf8(pair).ok()?, 16).ok())
+            .collect()
     } else {
         None
     }
